@@ -81,7 +81,9 @@ def cmdChar (b : UInt8) : Bool := isAlpha b || b == USCORE
 
 def wfKey (k : Bytes) : Bool := !k.isEmpty && k.all keyChar && k != str "binary"
 def wfValue (v : Bytes) : Bool := validUtf8 v && !(v.contains LF)
-def wfFrame (f : AbsFrame) : Bool := f.fields.all (fun kv => wfKey kv.1 && wfValue kv.2)
+def wfFrame (f : AbsFrame) : Bool :=
+  f.fields.all (fun kv => wfKey kv.1 && wfValue kv.2) &&
+  f.binary.all (fun b => b.length ≤ U64MAX)          -- a payload length the header can carry
 def wfErr (e : Err) : Bool :=
   e.code ≤ U64MAX && e.index ≤ U64MAX && wfValue e.message &&
   (match e.command with
